@@ -1519,6 +1519,9 @@ def r_domain_clamped(ctx, f: FunctionInfo, rule="R-GUARD", chain=None):
                         names = {y.id for y in ast.walk(x) if isinstance(y, ast.Name)}
                         if computed(x) or (names - params):
                             prone = True
+            # the determinant of a (possibly rank-deficient) positive semidefinite matrix: 0 up to rounding, of either sign
+            if any(isinstance(x, ast.Call) and (model.resolve_call(f, x).key or "") in ("numpy.linalg.det", "scipy.linalg.det") for p_ in parts for x in ast.walk(p_)):
+                prone = True
         else:
             prone = any(computed(p_) for p_ in parts)
         if not prone:
